@@ -8,7 +8,7 @@ from p_c07 import gen_pipeline, svc_tok, expected_trace
 class PROP(Prop):
     id = "C14"
     profiles = ["debug"]
-    rule = ("request sequences (1..4 requests) on the real TCP and RTU-over-TCP servers with: end of stream at EVERY byte offset; a write failure "
+    rule = ("request sequences (1..4 requests) on the real TCP and RTU-over-TCP servers with: end of stream at EVERY byte offset; a write failure (zero write or an error of every io::ErrorKind, rotating) and a failing flush "
             "(error / zero write) at EVERY offset of every reply; read errors; every class of malformed input (invalid MBAP header, undecodable "
             "PDU, RTU noise beyond the retry limit, oversized reply); accept-loop histories mixing good, rejected, misbehaving, reset-in-the-backlog and failing connection setups, "
             "a setup that never completes, and an abort signal over real loopback sockets; the serial RTU server (server::rtu) on a pty with undecodable requests after j good ones and with the abort signal.  Oracle: silent end on a frame boundary; otherwise exactly one error report; all "
@@ -18,6 +18,7 @@ class PROP(Prop):
     def cases(self, rng, tier):
         cs = []
         n = 25 if tier == "quick" else 150
+        wrot = rng.randrange(100)
         for proto in ("tcp", "rtu"):
             for _ in range(n):
                 k = rng.choice([1, 2, 3, 4])
@@ -44,8 +45,11 @@ class PROP(Prop):
                 wpos = 0
                 replies = [e[2:] for e in full if e.startswith("W:")]
                 total = sum(len(r) // 2 for r in replies)
+                kinds = cligen.KINDS
                 for off in range(total):
-                    for fault in ("e:BrokenPipe", "z", "e:Other", "e:Interrupted"):
+                    # every error kind is a failure to write the reply, also the ones that look transient (Interrupted, WouldBlock) or like
+                    # an encoder refusal (InvalidInput, InvalidData): each kind rotates over the offsets
+                    for fault in ("e:BrokenPipe", "z", "e:" + kinds[(off + wrot) % len(kinds)], "e:" + kinds[(2 * off + wrot + 7) % len(kinds)]):
                         # one accept event per reply that is written completely, then the partial accept, then the fault
                         exp, acc, wev = [], 0, []
                         for e in full:
@@ -63,6 +67,13 @@ class PROP(Prop):
                         W = ",".join(wev + [fault])
                         line = "SRV %s %s %s - %s" % (proto, mb.rscript([stream]), W, svctok)
                         cs.append(Case(line, {"k": "writefail", "proto": proto, "exp": exp, "clean": False, "off": off}))
+                wrot += total
+                # --- the reply is accepted by the transport but the flush that follows it fails
+                if replies:
+                    first = next(i for i, e in enumerate(full) if e.startswith("W:"))
+                    for kind in rng.sample(kinds, 4):
+                        line = "SRV %s %s - e:%s %s" % (proto, mb.rscript([stream]), kind, svctok)
+                        cs.append(Case(line, {"k": "flushfail", "proto": proto, "exp": full[:first + 1], "clean": False}))
             # --- malformed input classes after j good requests
             for _ in range(150 if tier == "quick" else 1000):
                 k = rng.choice([0, 1, 2])
